@@ -164,9 +164,15 @@ assert(idx + 1 == itv__.seq().len() ==> any_cached(rrs@, recs_g, *name, now)) by
     "Cache::insert": {"props": ["C05", "C15", "C10"],
         "contract": """    requires old(self).inner.wf(), old(self).inner.current_size < usize::MAX,
     ensures final(self).inner.wf(), final(self).inner.desired_size == old(self).inner.desired_size,
-        typed_map(old(self).inner.partitions@) ==> typed_map(final(self).inner.partitions@), // [C10:records_are_filed_under_their_own_type]""",
+        typed_map(old(self).inner.partitions@) ==> typed_map(final(self).inner.partitions@), // [C10:records_are_filed_under_their_own_type]
+        forall|k: DomainName| k != record.name ==> (#[trigger] final(self).inner.partitions@.contains_key(k) <==> old(self).inner.partitions@.contains_key(k)), // [C05:inserting_a_record_leaves_other_names_untouched]
+        forall|k: DomainName| k != record.name && old(self).inner.partitions@.contains_key(k) ==> (#[trigger] final(self).inner.partitions@[k]).records == old(self).inner.partitions@[k].records, // [C05:inserting_a_record_leaves_other_names_untouched]
+        final(self).inner.partitions@.contains_key(record.name),
+        exists|now: Instant, e: Instant, d: Option<int>| #[trigger] is_now(now) && inst(e) == inst(now) + record.ttl * 1_000_000_000
+            && #[trigger] upsert_recs(recs_or_empty(old(self).inner.partitions@, record.name), final(self).inner.partitions@[record.name].records@, spec_rtype_of(record.rtype_with_data), (record.rtype_with_data, e), d)
+            && dup_ok(recs_or_empty(old(self).inner.partitions@, record.name), spec_rtype_of(record.rtype_with_data), record.rtype_with_data, d), // [C05:a_record_is_cached_under_its_name_and_type_with_its_data_for_its_ttl_in_seconds]""",
         "entry": "broadcast use axiom_rtd_eq, axiom_rtd_obeys;",
-        "anchors": [{"after": "Duration::from_secs(record.ttl.into()),\n        );", "proof": """proof {
+        "anchors": [{"after_re": r"\}\s*$", "at": "before", "proof": """proof {
     if typed_map(old(self).inner.partitions@) {
         let (e, d) = choose|e: Instant, d: Option<int>| #[trigger] upsert_recs(recs_or_empty(old(self).inner.partitions@, record.name), self.inner.partitions@[record.name].records@, spec_rtype_of(record.rtype_with_data), (record.rtype_with_data, e), d);
         lemma_typed_upsert(old(self).inner.partitions@, self.inner.partitions@, record.name, spec_rtype_of(record.rtype_with_data), (record.rtype_with_data, e), d);
@@ -344,11 +350,16 @@ def build(G):
     # Cache::insert with the property's clause as a call-site obligation (a TTL-zero record is never handed to the cache)
     G.raw("""#[verifier::external_body]
 pub struct SharedCache { cache: std::sync::Arc<std::sync::Mutex<Cache>> }
-pub struct LockedCache { g: u8 }
+pub struct LockedCache { pub g: u8, pub log: Ghost<Seq<ResourceRecord>> }
+// the records of a list that the shared cache stores: those with a positive TTL, in order
+pub open spec fn live_records(s: Seq<ResourceRecord>) -> Seq<ResourceRecord> decreases s.len() {
+    if s.len() == 0 { Seq::empty() } else if s.last().ttl > 0 { live_records(s.drop_last()).push(s.last()) } else { live_records(s.drop_last()) }
+}
 impl LockedCache {
     #[verifier::external_body]
     pub fn insert(&mut self, record: &ResourceRecord)
         requires record.ttl > 0, // [C05:shared_cache_never_stores_ttl_zero]
+        ensures final(self).log@ == old(self).log@.push(*record),
     { unimplemented!() }
     // Cache::get as proved above (the clause the resolver relies on)
     #[verifier::external_body]
@@ -359,10 +370,22 @@ impl LockedCache {
     { unimplemented!() }
 }
 #[verifier::external_body]
-fn shim_lock_cache(c: &SharedCache) -> (r: LockedCache) { unimplemented!() }""", ("spec", "SharedCache stand-in (R9)"))
+fn shim_lock_cache(c: &SharedCache) -> (r: LockedCache) ensures r.log@ == Seq::<ResourceRecord>::empty() { unimplemented!() }""", ("spec", "SharedCache stand-in (R9)"))
     r9 = [("R9", r"self\.cache\.lock\(\)\.expect\(MUTEX_POISON_MESSAGE\)", "shim_lock_cache(self)")]
-    specs["SharedCache::insert"] = {"props": ["C05"], "contract": "", "rewrites": r9}
-    specs["SharedCache::insert_all"] = {"props": ["C05"], "contract": "", "rewrites": r9}
+    # R50: a function whose only effect is on the lock-guarded stand-in hands back the stand-in's ghost log of insertions, so that
+    # its contract can say what was stored (the real function returns nothing)
+    specs["SharedCache::insert"] = {"props": ["C05"], "rewrites": r9, "ret": "log__",
+        "header_rewrites": [("R50", r"record: &ResourceRecord\)", "record: &ResourceRecord) -> Ghost<Seq<ResourceRecord>>")],
+        "contract": """    ensures log__@ == (if record.ttl > 0 { seq![*record] } else { Seq::<ResourceRecord>::empty() }), // [C05:the_shared_cache_stores_a_record_exactly_when_its_ttl_is_positive]""",
+        "entry": "let ghost mut stored__: Seq<ResourceRecord> = Seq::empty();",
+        "anchors": [{"after_re": r"\}\s*\}\s*$", "at": "before", "proof": "proof { stored__ = cache.log@; assert(stored__ =~= seq![*record]); }"},
+                    {"after_re": r"\}\s*$", "at": "before", "proof": "Ghost(stored__)"}]}
+    specs["SharedCache::insert_all"] = {"props": ["C05"], "rewrites": r9, "ret": "log__",
+        "header_rewrites": [("R50", r"records: &\[ResourceRecord\]\)", "records: &[ResourceRecord]) -> Ghost<Seq<ResourceRecord>>")],
+        "contract": """    ensures log__@ == live_records(records@), // [C05:the_shared_cache_stores_exactly_the_records_with_a_positive_ttl]""",
+        "loops": {"0": {"kw": "for", "iter_name": "it__", "spec": """            invariant cache.log@ == live_records(records@.take(it__.index@ as int)), // [C05:the_shared_cache_stores_exactly_the_records_with_a_positive_ttl]""",
+                        "entry": "proof { let k = it__.index@ as int; assert(records@.take(k + 1).drop_last() =~= records@.take(k)); assert(records@.take(k + 1).last() == *record); }"}},
+        "anchors": [{"after_re": r"\}\s*$", "at": "before", "proof": "proof { assert(records@.take(records@.len() as int) =~= records@); }\nGhost(cache.log@)"}]}
     specs["SharedCache::get"] = {"props": ["C05", "C10"], "rewrites": [("R9", r"self\.cache\s*\.lock\(\)\s*\.expect\(MUTEX_POISON_MESSAGE\)", "shim_lock_cache(self)")], "contract": """    ensures all_named(r@, *name), // [C05,C10:lookup_returns_records_owned_by_the_asked_name]
         forall|j: int| 0 <= j < r@.len() ==> (#[trigger] r@[j]).ttl > 0, // [C05:never_serves_a_record_with_no_time_left]
         forall|x: int| 0 <= x < r@.len() ==> qmatch(spec_rtype_of((#[trigger] r@[x]).rtype_with_data), qtype), // [C10:typed_lookup_returns_records_of_the_asked_type]"""}
@@ -371,6 +394,9 @@ fn shim_lock_cache(c: &SharedCache) -> (r: LockedCache) { unimplemented!() }""",
 
 
 CANARIES = [
+    {"name": "shared_cache_skips_ttl_one", "file": CACHE, "old": "        if record.ttl > 0 {\n            let mut cache", "new": "        if record.ttl > 1 {\n            let mut cache"},
+    {"name": "insert_all_stops_at_first_dead_record", "file": CACHE, "old": "            if record.ttl > 0 {\n                cache.insert(record);\n            }", "new": "            if record.ttl > 0 {\n                cache.insert(record);\n            } else {\n                break;\n            }"},
+    {"name": "ttl_halved_on_insert", "file": CACHE, "old": "            Duration::from_secs(record.ttl.into()),", "new": "            Duration::from_secs((record.ttl / 2).into()),"},
     {"name": "record_filed_under_type_a", "file": CACHE, "old": "            record.rtype_with_data.rtype(),\n            record.rtype_with_data.clone(),", "new": "            RecordType::A,\n            record.rtype_with_data.clone(),"},
     {"name": "lru_keeps_expiry_entry", "file": CACHE, "old": "            self.expiry_priority.remove(&partition_key);\n", "new": ""},
     {"name": "prune_stops_early", "file": CACHE, "old": "while self.current_size > self.desired_size {", "new": "while self.current_size > self.desired_size + 1 {"},
